@@ -1,2 +1,10 @@
 import QlibcModel.Props.C01
-#print axioms Qlibc.Props.C01.placeholder
+#print axioms Qlibc.Props.C01.default_cmp_ok
+#print axioms Qlibc.Props.C01.init_refines
+#print axioms Qlibc.Props.C01.put_refines
+#print axioms Qlibc.Props.C01.get_refines
+#print axioms Qlibc.Props.C01.size_refines
+#print axioms Qlibc.Props.C01.find_min_refines
+#print axioms Qlibc.Props.C01.find_max_refines
+#print axioms Qlibc.Props.C01.clear_refines
+#print axioms Qlibc.Props.C01.put_count
